@@ -625,6 +625,11 @@ func typeFeats(t *typ, feats map[string]bool) {
 // generators around the cases they emit.
 var asSubscription bool
 
+// noIdle: the next cases are executed WITHOUT an idle handler (Request.IdleHandler == nil): wait()
+// must answer "No idle handler defined." as soon as it would have to call one, and must not need
+// one when every promise is already fulfilled.  Set and reset by the generators.
+var noIdle bool
+
 type stuck struct{}
 
 var npanics int
@@ -760,7 +765,7 @@ func run(root *val, mutation bool, ranks []int, r *rng.R) observation {
 			Query:          text,
 			VariableValues: vars,
 			InitialValue:   root,
-			IdleHandler:    idle,
+			IdleHandler:    idleOrNil(idle),
 		})
 		if r.Data == nil && len(r.Errors) > 0 && r.Errors[0].Path == nil {
 			// parse / validation error: the harness generated a bad document
@@ -777,6 +782,13 @@ func run(root *val, mutation bool, ranks []int, r *rng.R) observation {
 	obs.proms = len(reg.proms)
 	obs.events = append([]sexp.Node(nil), events...)
 	return obs
+}
+
+func idleOrNil(f func()) func() {
+	if noIdle {
+		return nil
+	}
+	return f
 }
 
 func resetGql(t *typ) {
@@ -914,6 +926,7 @@ func setPrefill(root *val, r *rng.R) {
 
 func caseSexp(root *val, mutation bool, ranks []int, r *rng.R) sexp.Node {
 	root.setPaths(nil)
+	wasNoIdle := noIdle
 	o := run(root, mutation, ranks, r)
 	mode := "query"
 	if mutation {
@@ -934,7 +947,8 @@ func caseSexp(root *val, mutation bool, ranks []int, r *rng.R) sexp.Node {
 		feats = append(feats, sexp.Sym(f))
 	}
 	return sexp.T("case", sexp.T("mode", sexp.Sym(mode)), sexp.T("plan", sexp.L(root.selSexp()...)),
-		sexp.T("ranks", sexp.L(rk...)), sexp.T("pre", sexp.L(pre...)), sexp.T("feat", feats...), o.sexp())
+		sexp.T("ranks", sexp.L(rk...)), sexp.T("pre", sexp.L(pre...)), sexp.T("feat", feats...),
+		sexp.T("noidle", sexp.Bool(wasNoIdle)), o.sexp())
 }
 
 // ---------------------------------------------------------------------------------------------
@@ -1280,7 +1294,8 @@ func randomRoot(r *rng.R, nroots, depth, budget int) *val {
 
 func randomCase(r *rng.R, mutation bool, nroots int) sexp.Node {
 	asSubscription = !mutation && nroots == 1 && r.Chance(1, 2)
-	defer func() { asSubscription = false }()
+	noIdle = r.Chance(1, 12)
+	defer func() { asSubscription = false; noIdle = false }()
 	root := randomRoot(r, nroots, r.Range(1, 4), r.Range(3, 12))
 	density := r.Range(0, 4)
 	k := assignTags(root, func(int) bool { return r.Intn(4) < density })
@@ -1332,6 +1347,12 @@ func main() {
 		asSubscription = true
 		flatFamily(h, 1, []int{0, 1, 2, 3}, false, 5, r)
 		asSubscription = false
+		// without an idle handler: every async subset of 1 and 2 fields, queries and mutations
+		noIdle = true
+		flatFamily(h, 1, []int{0, 1, 2, 3}, false, 5, r)
+		flatFamily(h, 2, []int{0, 1, 2}, false, 5, r)
+		flatFamily(h, 2, []int{0, 2}, true, 5, r)
+		noIdle = false
 		if h.Thorough() {
 			flatFamily(h, 3, []int{0, 1, 2, 3}, false, 5, r)
 			flatFamily(h, 4, []int{0, 2}, false, 5, r)
